@@ -82,11 +82,11 @@ Definition set_env (st : sstate) (k : skey) (v : const) : sstate := mkst (env_se
 
 Lemma wf_setr s r v : wf_m s -> 0 <= v < W -> wf_m (setr s r v).
 Proof.
-  intros (A & B & C & D & E & F) Hv. unfold setr. destruct (r =? 0) eqn:Er; [repeat split; auto|].
-  repeat split; cbn [gpr hi lo pc mem]; auto.
-  - destruct (Z.eqb_spec 0 r); [lia|assumption].
-  - intros k. destruct (k =? r); [lia|apply B].
-  - intros k. destruct (k =? r); [lia|apply B].
+  intros (A & B & C & D & E & F) Hv. unfold setr. destruct (Z.eqb_spec r 0) as [->|N].
+  - unfold wf_m. auto 10.
+  - unfold wf_m. cbn [gpr hi lo pc mem]. split; [|split; [|auto]].
+    + destruct (Z.eqb_spec 0 r); [lia|assumption].
+    + intros k. destruct (k =? r); [lia|apply B].
 Qed.
 
 Lemma emb_setr s st rd v : emb s st -> 0 <= rd <= 31 ->
@@ -184,7 +184,8 @@ Lemma run_single addr ops st : run_graph (single addr ops) st = run_instrs (numb
 Proof.
   unfold run_graph, single. cbn [g_entry g_exit]. unfold FUEL.
   cbn [run_cfg g_blocks find_block blk b_index]. rewrite Z.eqb_refl. cbn [b_instrs g_exit optZ_eqb].
-  rewrite Z.eqb_refl. destruct (run_instrs (number addr 0 ops) st); reflexivity.
+  rewrite Z.eqb_refl. change (b_instrs (blk 0 addr ops)) with (number addr 0 ops).
+  destruct (run_instrs (number addr 0 ops) st); reflexivity.
 Qed.
 
 Lemma run_assign addr i d e t st v : den (st_env st) e = Ok v ->
@@ -193,3 +194,1141 @@ Proof. intros H. cbn [run_instrs i_op exec_op]. rewrite H. reflexivity. Qed.
 
 Lemma run_nop addr i p t st : run_instrs (mkinstr i (ONop p) addr :: t) st = run_instrs t st.
 Proof. reflexivity. Qed.
+
+(* ------------------------------------------------------------------ the statement proved per form *)
+Definition kbc : skey := kreg R_BC.
+
+Definition trap_id (t : mtrap) : option N :=
+  match t with
+  | TOverflow => Some I_OVERFLOW | TTrap => Some I_TRAP | TBreak => Some I_BREAK | TSyscall => Some I_SYSCALL
+  | TAddrErr => None
+  end.
+
+(* what running the instruction graph from an embedded state must produce.  The latch scalar
+   `branching_condition` is preserved (frame condition used by the delay-slot theorem). *)
+Definition post (r : mresult) (st : sstate) (o : outcome) : Prop :=
+  match r with
+  | MOk s' uh ul => exists st', o = Fin st' /\ emb_u uh ul s' st' /\
+                                env_get (st_env st') kbc = env_get (st_env st) kbc
+  | MTrap t s' => exists m st', o = Trap m st' /\ trap_id t = Some m /\ emb s' st'
+  | MUnpred => True
+  end.
+
+Definition temps_ok (ts : list N) : Prop := forall t, In t ts -> (40 <= t)%N.
+
+(* forall register fields (through i), forall addresses, forall well-formed machine states, forall
+   embeddings: the mirror's graph exists (no sort error) and running it gives what the ISA prescribes *)
+Definition plain_correct (bg : bool) (i : minstr) : Prop :=
+  forall a ts s st, wf_m s -> big s = bg -> emb s st -> temps_ok ts ->
+    match lift_plain bg i a ts with
+    | None => True
+    | Some (Ok g) => post (exec1 i s) st (run_graph g st)
+    | Some _ => False
+    end.
+
+Definition reg_ok (r : Z) : Prop := 0 <= r <= 31.
+
+Lemma kbc_not_reg r : 0 <= r <= 33 -> kreg r <> kbc.
+Proof. intros H. apply kreg_neq; unfold R_BC; lia. Qed.
+
+Lemma post_assign_reg s st ad rd e vil vspec :
+  emb s st -> reg_ok rd -> den (st_env st) e = Ok (mkc 32 vil) -> vil = vspec ->
+  post (ok (setr s rd vspec)) st (run_graph (single ad [OAssign (reg_scalar rd) e]) st).
+Proof.
+  intros He Hrd Hd <-. rewrite run_single. cbn [number]. erewrite run_assign by eassumption.
+  cbn [run_instrs]. unfold ok, post. eexists. split; [reflexivity|]. split.
+  - apply emb_emb_u. rewrite skey_reg. apply emb_setr; assumption.
+  - rewrite skey_reg. unfold set_env. cbn [st_env]. apply env_get_set_other. apply kbc_not_reg. unfold reg_ok in Hrd. lia.
+Qed.
+
+(* same, HI / LO unpredictable afterwards (mul) *)
+Lemma post_assign_reg_u s st ad rd e vil vspec :
+  emb s st -> reg_ok rd -> den (st_env st) e = Ok (mkc 32 vil) -> vil = vspec ->
+  post (MOk (setr s rd vspec) true true) st (run_graph (single ad [OAssign (reg_scalar rd) e]) st).
+Proof.
+  intros He Hrd Hd <-. rewrite run_single. cbn [number]. erewrite run_assign by eassumption.
+  cbn [run_instrs]. unfold post. eexists. split; [reflexivity|]. split.
+  - apply emb_u_weaken. rewrite skey_reg. apply emb_setr; assumption.
+  - rewrite skey_reg. unfold set_env. cbn [st_env]. apply env_get_set_other. apply kbc_not_reg. unfold reg_ok in Hrd. lia.
+Qed.
+
+Lemma post_assign_hi s st ad e vil vspec :
+  emb s st -> den (st_env st) e = Ok (mkc 32 vil) -> vil = vspec ->
+  post (ok (set_hi s vspec)) st (run_graph (single ad [OAssign (sc R_HI 32) e]) st).
+Proof.
+  intros He Hd <-. rewrite run_single. cbn [number]. erewrite run_assign by eassumption.
+  cbn [run_instrs]. unfold ok, post. eexists. split; [reflexivity|]. split.
+  - apply emb_emb_u. rewrite skey_sc. apply emb_set_hi; assumption.
+  - rewrite skey_sc. unfold set_env. cbn [st_env]. apply env_get_set_other. apply kbc_not_reg. unfold R_HI. lia.
+Qed.
+Lemma post_assign_lo s st ad e vil vspec :
+  emb s st -> den (st_env st) e = Ok (mkc 32 vil) -> vil = vspec ->
+  post (ok (set_lo s vspec)) st (run_graph (single ad [OAssign (sc R_LO 32) e]) st).
+Proof.
+  intros He Hd <-. rewrite run_single. cbn [number]. erewrite run_assign by eassumption.
+  cbn [run_instrs]. unfold ok, post. eexists. split; [reflexivity|]. split.
+  - apply emb_emb_u. rewrite skey_sc. apply emb_set_lo; assumption.
+  - rewrite skey_sc. unfold set_env. cbn [st_env]. apply env_get_set_other. apply kbc_not_reg. unfold R_LO. lia.
+Qed.
+
+(* ------------------------------------------------------------------ value lemmas *)
+Lemma gpr_range s r : wf_m s -> 0 <= gpr s r < 2 ^ 32.
+Proof. intros (_ & B & _). apply B. Qed.
+Lemma gpr_zero s : wf_m s -> gpr s 0 = 0.
+Proof. intros (A & _). exact A. Qed.
+
+Lemma U_small w x : 0 <= x < 2 ^ w -> U w x = x.
+Proof. intros H. unfold U. apply Z.mod_small. assumption. Qed.
+
+Lemma lxor_ones32 x : 0 <= x < 2 ^ 32 -> Z.lxor x 4294967295 = 4294967295 - x.
+Proof.
+  intros Hx. change 4294967295 with (Z.ones 32).
+  assert (L : Z.land x (Z.lxor x (Z.ones 32)) = 0).
+  { apply Z.bits_inj'. intros n Hn. rewrite Z.land_spec, Z.lxor_spec, Z.bits_0.
+    destruct (Z.ltb_spec n 32) as [Hlt|Hge].
+    - rewrite Z.ones_spec_low by lia. destruct (Z.testbit x n); reflexivity.
+    - rewrite (Z.bits_above_log2 x n); [reflexivity|lia|].
+      destruct (Z.eqb_spec x 0) as [->|Nz]; [cbn; lia|].
+      assert (Z.log2 x < 32) by (apply Z.log2_lt_pow2; lia). lia. }
+  pose proof (Z.add_nocarry_lxor _ _ L) as H.
+  rewrite <- Z.lxor_assoc, Z.lxor_nilpotent, Z.lxor_0_l in H.
+  rewrite Z.ones_equiv in *. lia.
+Qed.
+
+Lemma mod64_mod32 z : (z mod 2 ^ 64) mod 2 ^ 32 = z mod 2 ^ 32.
+Proof. symmetry. apply Znumtheory.Zmod_div_mod; try lia. exists (2 ^ 32). reflexivity. Qed.
+
+Lemma mul_sext_trun x y : U 32 (U 64 (U 64 x * U 64 y)) = U 32 (x * y).
+Proof.
+  unfold U. rewrite <- Z.mul_mod by lia. apply mod64_mod32.
+Qed.
+
+Lemma land31 y : 0 <= y -> Z.land y 31 = y mod 32.
+Proof. intros H. change 31 with (Z.ones 5). rewrite Z.land_ones by lia. reflexivity. Qed.
+
+Lemma cs_simm_mod imm : 0 <= imm < 2 ^ 16 -> cs_simm imm mod 2 ^ 32 = sx16 imm mod 2 ^ 32.
+Proof.
+  intros H. unfold cs_simm, sx16. destruct (imm <? 2 ^ 15); [reflexivity|].
+  replace (2 ^ 64 - 2 ^ 16 + imm) with ((imm - 2 ^ 16) + 2 ^ 32 * 2 ^ 32) by (change (2 ^ 64) with (2 ^ 32 * 2 ^ 32); ring).
+  rewrite Z.mod_add by lia. reflexivity.
+Qed.
+
+(* ------------------------------------------------------------------ tactics *)
+Ltac den_tac :=
+  lazymatch goal with
+  | |- den _ (reg_expr _) = _ => eapply den_reg; [eassumption|eassumption|unfold reg_ok in *; lia]
+  | |- den _ (expr_const _ 32) = _ => rewrite den_const, new_big_32; reflexivity
+  | |- den _ (expr_const _ 64) = _ => rewrite den_const, new_big_64; reflexivity
+  | |- den _ (EBin _ _ _) = _ => eapply eq_trans; [eapply den_bin; den_tac|cbn [sp_bin]; reflexivity]
+  | |- den _ (EExt _ _ _) = _ => eapply eq_trans; [eapply den_ext; den_tac|cbn [sp_ext cbits cval Z.leb Z.compare Pos.compare Pos.compare_cont]; reflexivity]
+  end.
+
+Ltac builder_ok :=
+  repeat (rewrite mk_bin_ok by (cbn [e_bits is_cmp]; rewrite ?e_bits_reg; reflexivity); cbn [bind]).
+
+(* ------------------------------------------------------------------ ALU, register operands *)
+Definition alu3_simple (o : alu3) : bool :=
+  match o with AAddu | ASubu | AAnd | AOr | AXor | ANor | AMul => true | _ => false end.
+
+Theorem alu3_simple_correct bg o rd rs rt :
+  alu3_simple o = true -> reg_ok rd -> reg_ok rs -> reg_ok rt -> plain_correct bg (MAlu3 o rd rs rt).
+Proof.
+  intros Ho Hd Hs Ht a ts s st Hw Hb He Hts.
+  pose proof (gpr_range s rs Hw) as Rs. pose proof (gpr_range s rt Hw) as Rt. pose proof (gpr_zero s Hw) as Z0.
+  destruct o; try discriminate Ho; cbn [lift_plain exec1 exec_alu3].
+  - (* addu / move *)
+    destruct (Z.eqb_spec rt 0) as [->|N].
+    + unfold b_move. eapply post_assign_reg; [assumption|assumption|den_tac|].
+      rewrite Z0, Z.add_0_r. symmetry. apply U_small. assumption.
+    + unfold b_bin3. builder_ok. eapply post_assign_reg; [assumption|assumption|den_tac|reflexivity].
+  - (* subu / negu *)
+    destruct (Z.eqb_spec rs 0) as [->|N].
+    + unfold b_negu. builder_ok. eapply post_assign_reg; [assumption|assumption|den_tac|].
+      rewrite Z0. reflexivity.
+    + unfold b_bin3. builder_ok. eapply post_assign_reg; [assumption|assumption|den_tac|reflexivity].
+  - (* and *)
+    unfold b_bin3. builder_ok. eapply post_assign_reg; [assumption|assumption|den_tac|reflexivity].
+  - (* or / move *)
+    destruct (Z.eqb_spec rt 0) as [->|N].
+    + unfold b_move. eapply post_assign_reg; [assumption|assumption|den_tac|].
+      rewrite Z0, Z.lor_0_r. reflexivity.
+    + unfold b_bin3. builder_ok. eapply post_assign_reg; [assumption|assumption|den_tac|reflexivity].
+  - (* xor *)
+    unfold b_bin3. builder_ok. eapply post_assign_reg; [assumption|assumption|den_tac|reflexivity].
+  - (* nor / not (not handled) *)
+    destruct (Z.eqb_spec rt 0) as [->|N]; [exact I|].
+    unfold b_nor. builder_ok. eapply post_assign_reg; [assumption|assumption|den_tac|].
+    unfold s_xor, s_or. change (4294967295 mod 2 ^ 32) with 4294967295.
+    rewrite lxor_ones32; [unfold W; lia|].
+    split; [apply Z.lor_nonneg; lia|].
+    destruct (Z.eqb_spec (Z.lor (gpr s rs) (gpr s rt)) 0) as [E|NE]; [rewrite E; lia|].
+    apply Z.log2_lt_cancel. rewrite Z.log2_lor by lia. rewrite Z.log2_pow2 by lia.
+    destruct (Z.eqb_spec (gpr s rs) 0) as [Ea|Na], (Z.eqb_spec (gpr s rt) 0) as [Eb|Nb];
+      try rewrite Ea; try rewrite Eb; cbn [Z.log2 Z.max];
+      repeat match goal with
+             | H : gpr s ?r <> 0 |- _ => assert (Z.log2 (gpr s r) < 32) by (apply Z.log2_lt_pow2; lia); clear H
+             end; lia.
+  - (* mul *)
+    unfold b_mul.
+    assert (E1 : mk_ext Sext 64 (reg_expr rs) = Ok (EExt Sext 64 (reg_expr rs))) by (unfold mk_ext; rewrite e_bits_reg; reflexivity).
+    assert (E2 : mk_ext Sext 64 (reg_expr rt) = Ok (EExt Sext 64 (reg_expr rt))) by (unfold mk_ext; rewrite e_bits_reg; reflexivity).
+    rewrite E1, E2. cbn [bind]. builder_ok. cbn [mk_ext e_bits is_cmp Z.leb Z.eqb Z.compare Pos.compare Pos.compare_cont orb bind].
+    eapply post_assign_reg_u; [assumption|assumption|den_tac|].
+    unfold s_trun, s_mul, s_sext. apply mul_sext_trun.
+Qed.
+
+(* ------------------------------------------------------------------ shifts *)
+Definition shop_binop (o : shop) : binop := match o with SSll => Shl | SSrl => Shr | SSra => AShr end.
+
+Lemma shift_value o x n : 0 <= n < 32 ->
+  match sp_bin (shop_binop o) 32 x n with Ok c => c = mkc 32 (shift o x n) | _ => False end.
+Proof.
+  intros Hn. destruct o; cbn [shop_binop sp_bin shift]; unfold s_shl, s_shr, s_ashr;
+    (destruct (Z.leb_spec 32 n); [lia|reflexivity]).
+Qed.
+
+Theorem shi_correct bg o rd rt sa :
+  reg_ok rd -> reg_ok rt -> 0 <= sa < 32 -> plain_correct bg (MShi o rd rt sa).
+Proof.
+  intros Hd Ht Hsa a ts s st Hw Hb He Hts.
+  assert (Hsa' : sa mod 2 ^ 32 = sa) by (apply Z.mod_small; lia).
+  assert (G : forall bo, bo = shop_binop o ->
+            match b_shi (Some a) bo rd rt sa with
+            | Ok g => post (exec1 (MShi o rd rt sa) s) st (run_graph g st) | _ => False end).
+  { intros bo ->. unfold b_shi. builder_ok. cbn [exec1].
+    pose proof (shift_value o (gpr s rt) sa Hsa) as V.
+    destruct (sp_bin (shop_binop o) 32 (gpr s rt) sa) as [c| |] eqn:E; try contradiction. subst c.
+    eapply post_assign_reg; [assumption|assumption| |reflexivity].
+    eapply eq_trans; [eapply den_bin; den_tac|]. rewrite Hsa'. exact E. }
+  cbn [lift_plain]. destruct o.
+  - destruct ((rd =? 0) && (rt =? 0)) eqn:Ez.
+    + destruct (Z.eqb_spec sa 0) as [->|N]; [|exact I].
+      apply andb_true_iff in Ez. destruct Ez as [Ed Et]. apply Z.eqb_eq in Ed, Et. subst rd rt.
+      unfold b_nop. cbn [exec1 shift]. rewrite run_single. cbn [number run_instrs i_op exec_op].
+      unfold ok, post. eexists. split; [reflexivity|]. split; [|reflexivity].
+      apply emb_emb_u. unfold setr. cbn [Z.eqb]. assumption.
+    + apply (G Shl eq_refl).
+  - apply (G Shr eq_refl).
+  - apply (G AShr eq_refl).
+Qed.
+
+Theorem shv_correct bg o rd rt rs :
+  reg_ok rd -> reg_ok rt -> reg_ok rs -> plain_correct bg (MShv o rd rt rs).
+Proof.
+  intros Hd Ht Hs a ts s st Hw Hb He Hts.
+  pose proof (gpr_range s rs Hw) as Rs.
+  assert (Hn : 0 <= gpr s rs mod 32 < 32) by (apply Z.mod_pos_bound; lia).
+  cbn [lift_plain exec1]. fold (shop_binop o). unfold b_shv. builder_ok.
+  pose proof (shift_value o (gpr s rt) (gpr s rs mod 32) Hn) as V.
+  destruct (sp_bin (shop_binop o) 32 (gpr s rt) (gpr s rs mod 32)) as [c| |] eqn:E; try contradiction. subst c.
+  eapply post_assign_reg; [assumption|assumption| |reflexivity].
+  eapply eq_trans; [eapply den_bin; den_tac|].
+  unfold s_and. change (31 mod 2 ^ 32) with 31. rewrite land31 by lia. exact E.
+Qed.
+
+(* ------------------------------------------------------------------ immediates *)
+Definition alui_simple (o : alui) : bool :=
+  match o with IAddiu | IAndi | IOri | IXori => true | _ => false end.
+
+Theorem alui_simple_correct bg o rt rs imm :
+  alui_simple o = true -> reg_ok rt -> reg_ok rs -> 0 <= imm < 2 ^ 16 -> plain_correct bg (MAluI o rt rs imm).
+Proof.
+  intros Ho Ht Hs Hi a ts s st Hw Hb He Hts.
+  assert (Him : imm mod 2 ^ 32 = imm) by (apply Z.mod_small; lia).
+  destruct o; try discriminate Ho; cbn [lift_plain exec1 exec_alui]; unfold b_bini; builder_ok;
+    (eapply post_assign_reg; [assumption|assumption|den_tac|]).
+  - unfold s_add, U. rewrite cs_simm_mod by assumption. rewrite Z.add_mod_idemp_r by lia. reflexivity.
+  - unfold s_and. rewrite Him. reflexivity.
+  - unfold s_or. rewrite Him. reflexivity.
+  - unfold s_xor. rewrite Him. reflexivity.
+Qed.
+
+Theorem lui_correct bg rt imm : reg_ok rt -> 0 <= imm < 2 ^ 16 -> plain_correct bg (MLui rt imm).
+Proof.
+  intros Ht Hi a ts s st Hw Hb He Hts. cbn [lift_plain exec1]. unfold b_lui.
+  eapply post_assign_reg; [assumption|assumption|den_tac|]. apply Z.mod_small. lia.
+Qed.
+
+(* ------------------------------------------------------------------ HI / LO moves *)
+Lemma den_hi s st : emb s st -> den (st_env st) (EScalar (sc R_HI 32)) = Ok (mkc 32 (hi s)).
+Proof. intros He. cbn [den]. rewrite skey_sc, (emb_hi _ _ He). reflexivity. Qed.
+Lemma den_lo s st : emb s st -> den (st_env st) (EScalar (sc R_LO 32)) = Ok (mkc 32 (lo s)).
+Proof. intros He. cbn [den]. rewrite skey_sc, (emb_lo _ _ He). reflexivity. Qed.
+
+Theorem mfhi_correct bg rd : reg_ok rd -> plain_correct bg (MMfhi rd).
+Proof.
+  intros Hd a ts s st Hw Hb He Hts. cbn [lift_plain exec1]. unfold b_mfhilo.
+  eapply post_assign_reg; [assumption|assumption|eapply den_hi; eassumption|reflexivity].
+Qed.
+Theorem mflo_correct bg rd : reg_ok rd -> plain_correct bg (MMflo rd).
+Proof.
+  intros Hd a ts s st Hw Hb He Hts. cbn [lift_plain exec1]. unfold b_mfhilo.
+  eapply post_assign_reg; [assumption|assumption|eapply den_lo; eassumption|reflexivity].
+Qed.
+Theorem mthi_correct bg rs : reg_ok rs -> plain_correct bg (MMthi rs).
+Proof.
+  intros Hs a ts s st Hw Hb He Hts. cbn [lift_plain exec1]. unfold b_mthilo.
+  eapply post_assign_hi; [assumption|den_tac|reflexivity].
+Qed.
+Theorem mtlo_correct bg rs : reg_ok rs -> plain_correct bg (MMtlo rs).
+Proof.
+  intros Hs a ts s st Hw Hb He Hts. cbn [lift_plain exec1]. unfold b_mthilo.
+  eapply post_assign_lo; [assumption|den_tac|reflexivity].
+Qed.
+
+(* ------------------------------------------------------------------ multi-block graphs *)
+Lemma run_cfg_step fuel g b st bl : find_block (g_blocks g) b = Some bl ->
+  run_cfg (Datatypes.S fuel) g b st =
+  match run_instrs (b_instrs bl) st with
+  | Fin st' =>
+      if optZ_eqb (g_exit g) (Some b) then Fin st'
+      else match enabled_edges (st_env st') (out_edges g b) with
+           | Ok [e] => run_cfg fuel g (e_tail e) st'
+           | Ok [] => Stuck ENoLocation
+           | Ok _ => Stuck EOther
+           | Err e => Stuck e
+           | Panic => Stuck EOther
+           end
+  | o => o
+  end.
+Proof. intros H. cbn [run_cfg]. rewrite H. reflexivity. Qed.
+
+Lemma den_not1 en c b : den en c = Ok (mkc 1 b) ->
+  den en (EBin Cmpeq c c0_1) = Ok (mkc 1 (if b =? 0 then 1 else 0)).
+Proof. intros H. erewrite den_bin; [|eassumption|reflexivity]. reflexivity. Qed.
+
+Definition bit01 (b : Z) : Prop := b = 0 \/ b = 1.
+
+(* head [nop] --c--> 1 ; --nc--> 2 ; 1 --> 3 ; 2 --> 3 ; exit 3: add, addi, sub, slt-family *)
+Lemma run_diamond ad c nc ops1 ops2 st b :
+  den (st_env st) c = Ok (mkc 1 b) -> den (st_env st) nc = Ok (mkc 1 (if b =? 0 then 1 else 0)) -> bit01 b ->
+  run_graph (mkcfg [blk 0 ad [ONop None]; blk 1 ad ops1; blk 2 ad ops2; blk 3 ad []]
+                   [edge_c 0 1 c; edge_c 0 2 nc; edge_u 1 3; edge_u 2 3] 4 (Some 0) (Some 3)) st
+  = run_instrs (number ad 0 (if b =? 1 then ops1 else ops2)) st.
+Proof.
+  intros Hc Hnc Hb. unfold run_graph. cbn [g_entry g_exit]. unfold FUEL.
+  erewrite run_cfg_step by reflexivity.
+  change (b_instrs (blk 0 ad [ONop None])) with (number ad 0 [ONop None]).
+  cbn [number run_instrs i_op exec_op g_exit optZ_eqb Z.eqb].
+  change (out_edges _ 0) with [edge_c 0 1 c; edge_c 0 2 nc].
+  cbn [enabled_edges e_cond edge_c guard_on]. rewrite Hc, Hnc.
+  destruct Hb as [-> | ->]; cbn [bind cbits cval Z.eqb Pos.eqb negb e_tail edge_c].
+  - erewrite run_cfg_step by reflexivity. change (b_instrs (blk 2 ad ops2)) with (number ad 0 ops2).
+    destruct (run_instrs (number ad 0 ops2) st) as [st'| | |]; reflexivity.
+  - erewrite run_cfg_step by reflexivity. change (b_instrs (blk 1 ad ops1)) with (number ad 0 ops1).
+    destruct (run_instrs (number ad 0 ops1) st) as [st'| | |]; reflexivity.
+Qed.
+
+(* head [nop] --c--> 1 ; --nc--> 2 ; 1 --> 2 ; exit 2 (movn/movz, bgezal/bltzal) *)
+Lemma run_tri ad c nc ops1 st b :
+  den (st_env st) c = Ok (mkc 1 b) -> den (st_env st) nc = Ok (mkc 1 (if b =? 0 then 1 else 0)) -> bit01 b ->
+  run_graph (mkcfg [blk 0 ad [ONop None]; blk 1 ad ops1; blk 2 ad []]
+                   [edge_c 0 1 c; edge_c 0 2 nc; edge_u 1 2] 3 (Some 0) (Some 2)) st
+  = run_instrs (number ad 0 (if b =? 1 then ops1 else [])) st.
+Proof.
+  intros Hc Hnc Hb. unfold run_graph. cbn [g_entry g_exit]. unfold FUEL.
+  erewrite run_cfg_step by reflexivity.
+  change (b_instrs (blk 0 ad [ONop None])) with (number ad 0 [ONop None]).
+  cbn [number run_instrs i_op exec_op g_exit optZ_eqb Z.eqb].
+  change (out_edges _ 0) with [edge_c 0 1 c; edge_c 0 2 nc].
+  cbn [enabled_edges e_cond edge_c guard_on]. rewrite Hc, Hnc.
+  destruct Hb as [-> | ->]; cbn [bind cbits cval Z.eqb Pos.eqb negb e_tail edge_c].
+  - erewrite run_cfg_step by reflexivity. reflexivity.
+  - erewrite run_cfg_step by reflexivity. change (b_instrs (blk 1 ad ops1)) with (number ad 0 ops1).
+    destruct (run_instrs (number ad 0 ops1) st) as [st'| | |]; reflexivity.
+Qed.
+
+(* ------------------------------------------------------------------ posts over instruction lists *)
+Lemma post_i_assign_reg s st ad rd e vil vspec :
+  emb s st -> reg_ok rd -> den (st_env st) e = Ok (mkc 32 vil) -> vil = vspec ->
+  post (ok (setr s rd vspec)) st (run_instrs (number ad 0 [OAssign (reg_scalar rd) e]) st).
+Proof.
+  intros He Hrd Hd Hv. rewrite <- run_single. eapply post_assign_reg; eassumption.
+Qed.
+Lemma post_i_nothing s st ad : emb s st -> post (ok s) st (run_instrs (number ad 0 []) st).
+Proof.
+  intros He. cbn [number run_instrs]. unfold ok, post. eexists. split; [reflexivity|]. split; [apply emb_emb_u; assumption|reflexivity].
+Qed.
+Lemma post_i_trap s st ad t m declared :
+  emb s st -> trap_id t = Some m -> post (MTrap t s) st (run_instrs (number ad 0 [intr m declared]) st).
+Proof.
+  intros He Ht. cbn [number run_instrs i_op intr]. unfold post. exists m, st. auto.
+Qed.
+
+(* ------------------------------------------------------------------ slt, sltu, slti, sltiu *)
+Lemma setlt_post s st ad o rd lhs rhs x y (bspec : bool) :
+  emb s st -> reg_ok rd -> is_cmp o = true -> e_bits lhs = 32 -> e_bits rhs = 32 ->
+  den (st_env st) lhs = Ok (mkc 32 x) -> den (st_env st) rhs = Ok (mkc 32 y) ->
+  sp_bin o 32 x y = Ok (mkc 1 (if bspec then 1 else 0)) ->
+  match b_setlt ad o (reg_scalar rd) lhs rhs with
+  | Ok g => post (ok (setr s rd (if bspec then 1 else 0))) st (run_graph g st)
+  | _ => False
+  end.
+Proof.
+  intros He Hd Ho Hl Hr Dl Dr Hv. unfold b_setlt, not1.
+  rewrite !(mk_bin_ok o lhs rhs) by congruence. cbn [bind].
+  rewrite mk_bin_ok by (cbn [e_bits]; rewrite Ho; reflexivity). cbn [bind].
+  assert (Dc : den (st_env st) (EBin o lhs rhs) = Ok (mkc 1 (if bspec then 1 else 0))).
+  { erewrite den_bin by eassumption. exact Hv. }
+  erewrite run_diamond; [|exact Dc|apply den_not1; exact Dc|destruct bspec; [right|left]; reflexivity].
+  destruct bspec; cbn [Z.eqb Pos.eqb].
+  - eapply post_i_assign_reg; [assumption|assumption|den_tac|reflexivity].
+  - eapply post_i_assign_reg; [assumption|assumption|den_tac|reflexivity].
+Qed.
+
+Theorem slt_correct bg o rd rs rt : (o = ASlt \/ o = ASltu) ->
+  reg_ok rd -> reg_ok rs -> reg_ok rt -> plain_correct bg (MAlu3 o rd rs rt).
+Proof.
+  intros Ho Hd Hs Ht a ts s st Hw Hb He Hts.
+  destruct Ho as [-> | ->]; cbn [lift_plain exec1 exec_alu3].
+  - eapply (setlt_post s st (Some a) Cmplts rd _ _ _ _ (S 32 (gpr s rs) <? S 32 (gpr s rt)));
+      [assumption|assumption|reflexivity|apply e_bits_reg|apply e_bits_reg|den_tac|den_tac|].
+    cbn [sp_bin]. unfold s_cmplts. destruct (S 32 (gpr s rs) <? S 32 (gpr s rt)); reflexivity.
+  - eapply (setlt_post s st (Some a) Cmpltu rd _ _ _ _ (gpr s rs <? gpr s rt));
+      [assumption|assumption|reflexivity|apply e_bits_reg|apply e_bits_reg|den_tac|den_tac|].
+    cbn [sp_bin]. unfold s_cmpltu. destruct (gpr s rs <? gpr s rt); reflexivity.
+Qed.
+
+Lemma S32_simm imm : 0 <= imm < 2 ^ 16 -> S 32 (cs_simm imm mod 2 ^ 32) = sx16 imm.
+Proof.
+  intros H. rewrite cs_simm_mod by assumption. unfold S, sx16.
+  change (2 ^ (32 - 1)) with 2147483648. change (2 ^ 32) with 4294967296.
+  change (2 ^ 15) with 32768 in *. change (2 ^ 16) with 65536 in *.
+  destruct (imm <? 32768) eqn:E.
+  - rewrite Z.mod_small by lia. destruct (imm <? 2147483648) eqn:E2; lia.
+  - replace ((imm - 65536) mod 4294967296) with (imm - 65536 + 4294967296).
+    + destruct (imm - 65536 + 4294967296 <? 2147483648) eqn:E2; lia.
+    + symmetry. rewrite <- (Z.mod_add _ 1) by lia. apply Z.mod_small. lia.
+Qed.
+
+Theorem slti_correct bg o rt rs imm : (o = ISlti \/ o = ISltiu) ->
+  reg_ok rt -> reg_ok rs -> 0 <= imm < 2 ^ 16 -> plain_correct bg (MAluI o rt rs imm).
+Proof.
+  intros Ho Ht Hs Hi a ts s st Hw Hb He Hts.
+  destruct Ho as [-> | ->]; cbn [lift_plain exec1 exec_alui].
+  - eapply (setlt_post s st (Some a) Cmplts rt _ _ _ _ (S 32 (gpr s rs) <? sx16 imm));
+      [assumption|assumption|reflexivity|apply e_bits_reg|reflexivity|den_tac|den_tac|].
+    cbn [sp_bin]. unfold s_cmplts. rewrite S32_simm by assumption.
+    destruct (S 32 (gpr s rs) <? sx16 imm); reflexivity.
+  - eapply (setlt_post s st (Some a) Cmpltu rt _ _ _ _ (gpr s rs <? U 32 (sx16 imm)));
+      [assumption|assumption|reflexivity|apply e_bits_reg|reflexivity|den_tac|den_tac|].
+    cbn [sp_bin]. unfold s_cmpltu, U. rewrite cs_simm_mod by assumption.
+    destruct (gpr s rs <? sx16 imm mod 2 ^ 32); reflexivity.
+Qed.
+
+(* ------------------------------------------------------------------ movn, movz *)
+Theorem movc_correct bg o rd rs rt : (o = AMovn \/ o = AMovz) ->
+  reg_ok rd -> reg_ok rs -> reg_ok rt -> plain_correct bg (MAlu3 o rd rs rt).
+Proof.
+  intros Ho Hd Hs Ht a ts s st Hw Hb He Hts.
+  assert (Z32 : 0 mod 2 ^ 32 = 0) by reflexivity.
+  destruct Ho as [-> | ->]; cbn [lift_plain exec1 exec_alu3]; unfold b_movc; builder_ok.
+  - (* movn: take if rt <> 0 *)
+    assert (Dc : den (st_env st) (EBin Cmpneq (reg_expr rt) (expr_const 0 32)) = Ok (mkc 1 (if gpr s rt =? 0 then 0 else 1))).
+    { eapply eq_trans; [eapply den_bin; den_tac|]. cbn [sp_bin]. unfold s_cmpneq. rewrite Z32. reflexivity. }
+    assert (Dn : den (st_env st) (EBin Cmpeq (reg_expr rt) (expr_const 0 32)) = Ok (mkc 1 (if gpr s rt =? 0 then 1 else 0))).
+    { eapply eq_trans; [eapply den_bin; den_tac|]. cbn [sp_bin]. unfold s_cmpeq. rewrite Z32. reflexivity. }
+    erewrite run_tri; [|exact Dc| |].
+    + destruct (gpr s rt =? 0); cbn [Z.eqb Pos.eqb].
+      * apply post_i_nothing. assumption.
+      * eapply post_i_assign_reg; [assumption|assumption|den_tac|reflexivity].
+    + rewrite Dn. destruct (gpr s rt =? 0); reflexivity.
+    + destruct (gpr s rt =? 0); [left|right]; reflexivity.
+  - (* movz: take if rt = 0 *)
+    assert (Dc : den (st_env st) (EBin Cmpeq (reg_expr rt) (expr_const 0 32)) = Ok (mkc 1 (if gpr s rt =? 0 then 1 else 0))).
+    { eapply eq_trans; [eapply den_bin; den_tac|]. cbn [sp_bin]. unfold s_cmpeq. rewrite Z32. reflexivity. }
+    assert (Dn : den (st_env st) (EBin Cmpneq (reg_expr rt) (expr_const 0 32)) = Ok (mkc 1 (if gpr s rt =? 0 then 0 else 1))).
+    { eapply eq_trans; [eapply den_bin; den_tac|]. cbn [sp_bin]. unfold s_cmpneq. rewrite Z32. reflexivity. }
+    erewrite run_tri; [|exact Dc| |].
+    + destruct (gpr s rt =? 0); cbn [Z.eqb Pos.eqb].
+      * eapply post_i_assign_reg; [assumption|assumption|den_tac|reflexivity].
+      * apply post_i_nothing. assumption.
+    + rewrite Dn. destruct (gpr s rt =? 0); reflexivity.
+    + destruct (gpr s rt =? 0); [right|left]; reflexivity.
+Qed.
+
+(* ------------------------------------------------------------------ add, addi, sub (IntegerOverflow) *)
+(* bit 32 and bit 31 of the 64-bit sum / difference of the sign-extended operands differ exactly when the
+   32-bit signed operation overflows *)
+Lemma overflow_bits_add a b : 0 <= a < 2 ^ 32 -> 0 <= b < 2 ^ 32 ->
+  let t := U 64 (U 64 (S 32 a) + U 64 (S 32 b)) in
+  let sum := S 32 a + S 32 b in
+  (if U 1 (t / 2 ^ 32) =? U 1 (t / 2 ^ 31) then 0 else 1) = (if (sum <? - 2 ^ 31) || (2 ^ 31 <=? sum) then 1 else 0).
+Proof.
+  intros Ha Hb. cbv zeta. unfold U, S.
+  change (2 ^ (32 - 1)) with 2147483648. change (2 ^ 32) with 4294967296. change (2 ^ 31) with 2147483648.
+  change (2 ^ 64) with 18446744073709551616. change (2 ^ 1) with 2.
+  destruct (a <? 2147483648) eqn:Ea, (b <? 2147483648) eqn:Eb;
+    match goal with |- (if ?x =? ?y then _ else _) = (if ?c then _ else _) => destruct (Z.eqb_spec x y), c eqn:Ec end; lia.
+Qed.
+Lemma overflow_bits_sub a b : 0 <= a < 2 ^ 32 -> 0 <= b < 2 ^ 32 ->
+  let t := U 64 (U 64 (S 32 a) - U 64 (S 32 b)) in
+  let sum := S 32 a - S 32 b in
+  (if U 1 (t / 2 ^ 32) =? U 1 (t / 2 ^ 31) then 0 else 1) = (if (sum <? - 2 ^ 31) || (2 ^ 31 <=? sum) then 1 else 0).
+Proof.
+  intros Ha Hb. cbv zeta. unfold U, S.
+  change (2 ^ (32 - 1)) with 2147483648. change (2 ^ 32) with 4294967296. change (2 ^ 31) with 2147483648.
+  change (2 ^ 64) with 18446744073709551616. change (2 ^ 1) with 2.
+  destruct (a <? 2147483648) eqn:Ea, (b <? 2147483648) eqn:Eb;
+    match goal with |- (if ?x =? ?y then _ else _) = (if ?c then _ else _) => destruct (Z.eqb_spec x y), c eqn:Ec end; lia.
+Qed.
+
+Lemma U32_S_add a b : U 32 (S 32 a + S 32 b) = U 32 (a + b).
+Proof.
+  unfold U, S. change (2 ^ (32 - 1)) with 2147483648. change (2 ^ 32) with 4294967296.
+  destruct (a <? 2147483648), (b <? 2147483648); lia.
+Qed.
+Lemma U32_S_sub a b : U 32 (S 32 a - S 32 b) = U 32 (a - b).
+Proof.
+  unfold U, S. change (2 ^ (32 - 1)) with 2147483648. change (2 ^ 32) with 4294967296.
+  destruct (a <? 2147483648), (b <? 2147483648); lia.
+Qed.
+
+Lemma mk_ext_sext64 e : e_bits e = 32 -> mk_ext Sext 64 e = Ok (EExt Sext 64 e).
+Proof. intros H. unfold mk_ext. rewrite H. reflexivity. Qed.
+
+Definition trap_cond (o : binop) (lhs rhs : expr) : expr :=
+  let t := EBin o (EExt Sext 64 lhs) (EExt Sext 64 rhs) in
+  EBin Cmpneq (EExt Trun 1 (EBin Shr t (expr_const 32 64))) (EExt Trun 1 (EBin Shr t (expr_const 31 64))).
+
+Lemma b_trapping_eq ad o dst lhs rhs : (o = Add \/ o = Sub) -> e_bits lhs = 32 -> e_bits rhs = 32 ->
+  b_trapping ad o dst lhs rhs =
+  Ok (mkcfg [blk 0 ad [ONop None]; blk 1 ad [intr I_OVERFLOW false]; blk 2 ad [OAssign dst (EBin o lhs rhs)]; blk 3 ad []]
+            [edge_c 0 1 (trap_cond o lhs rhs); edge_c 0 2 (EBin Cmpeq (trap_cond o lhs rhs) c0_1); edge_u 1 3; edge_u 2 3]
+            4 (Some 0) (Some 3)).
+Proof.
+  intros [-> | ->] Hl Hr; unfold b_trapping, not1, mk_bin, mk_ext, trap_cond; cbn [e_bits is_cmp];
+    rewrite ?Hl, ?Hr; reflexivity.
+Qed.
+
+(* the trapping graph, for o = Add / Sub: `ovf` is the ISA's overflow test, `vspec` its result *)
+Lemma trapping_post s st ad (o : binop) rd lhs rhs x y (ovf : bool) vspec :
+  emb s st -> reg_ok rd -> (o = Add \/ o = Sub) -> e_bits lhs = 32 -> e_bits rhs = 32 ->
+  0 <= x < 2 ^ 32 -> 0 <= y < 2 ^ 32 ->
+  den (st_env st) lhs = Ok (mkc 32 x) -> den (st_env st) rhs = Ok (mkc 32 y) ->
+  ovf = (let t := match o with Add => S 32 x + S 32 y | _ => S 32 x - S 32 y end in (t <? - 2 ^ 31) || (2 ^ 31 <=? t)) ->
+  vspec = U 32 (match o with Add => S 32 x + S 32 y | _ => S 32 x - S 32 y end) ->
+  match b_trapping ad o (reg_scalar rd) lhs rhs with
+  | Ok g => post (if ovf then MTrap TOverflow s else ok (setr s rd vspec)) st (run_graph g st)
+  | _ => False
+  end.
+Proof.
+  intros He Hd Ho Hl Hr Hx Hy Dl Dr Hov Hv. rewrite b_trapping_eq by assumption.
+  set (t := match o with Add => U 64 (U 64 (S 32 x) + U 64 (S 32 y)) | _ => U 64 (U 64 (S 32 x) - U 64 (S 32 y)) end).
+  assert (Dt : den (st_env st) (EBin o (EExt Sext 64 lhs) (EExt Sext 64 rhs)) = Ok (mkc 64 t)).
+  { destruct Ho as [-> | ->]; (eapply eq_trans; [eapply den_bin; (eapply eq_trans; [eapply den_ext; eassumption|reflexivity])|reflexivity]). }
+  assert (Db : forall k, 0 <= k < 64 ->
+           den (st_env st) (EExt Trun 1 (EBin Shr (EBin o (EExt Sext 64 lhs) (EExt Sext 64 rhs)) (expr_const k 64))) = Ok (mkc 1 (U 1 (t / 2 ^ k)))).
+  { intros k Hk. eapply eq_trans; [eapply den_ext; eapply eq_trans; [eapply den_bin; [exact Dt|den_tac]|reflexivity]|].
+    cbn [sp_ext cbits cval Z.leb Z.compare Pos.compare Pos.compare_cont]. unfold s_trun, s_shr.
+    rewrite (Z.mod_small k) by lia. destruct (Z.leb_spec 64 k); [lia|reflexivity]. }
+  assert (Dc : den (st_env st) (trap_cond o lhs rhs) = Ok (mkc 1 (if ovf then 1 else 0))).
+  { unfold trap_cond. erewrite den_bin; [|apply Db; lia|apply Db; lia]. cbn [sp_bin]. unfold s_cmpneq. f_equal. f_equal.
+    subst ovf t. destruct Ho as [-> | ->]; [apply overflow_bits_add|apply overflow_bits_sub]; assumption. }
+  erewrite run_diamond; [|exact Dc|apply den_not1; exact Dc|destruct ovf; [right|left]; reflexivity].
+  destruct ovf; cbn [Z.eqb Pos.eqb].
+  - apply post_i_trap; [assumption|reflexivity].
+  - subst vspec. clear Hov Dc Db Dt t.
+    destruct Ho as [-> | ->];
+      (eapply post_i_assign_reg; [assumption|assumption|eapply eq_trans; [eapply den_bin; eassumption|reflexivity]|]).
+    + unfold s_add. symmetry. apply U32_S_add.
+    + unfold s_sub. symmetry. apply U32_S_sub.
+Qed.
+
+Theorem add_sub_correct bg o rd rs rt : (o = AAdd \/ o = ASub) ->
+  reg_ok rd -> reg_ok rs -> reg_ok rt -> plain_correct bg (MAlu3 o rd rs rt).
+Proof.
+  intros Ho Hd Hs Ht a ts s st Hw Hb He Hts.
+  pose proof (gpr_range s rs Hw) as Rs. pose proof (gpr_range s rt Hw) as Rt.
+  destruct Ho as [-> | ->]; cbn [lift_plain exec1 exec_alu3].
+  - unfold b_add.
+    eapply (trapping_post s st (Some a) Add rd _ _ (gpr s rs) (gpr s rt));
+      [assumption|assumption|left; reflexivity|apply e_bits_reg|apply e_bits_reg|assumption|assumption|den_tac|den_tac|reflexivity|reflexivity].
+  - destruct (Z.eqb_spec rs 0) as [->|N]; [exact I|]. unfold b_sub.
+    eapply (trapping_post s st (Some a) Sub rd _ _ (gpr s rs) (gpr s rt));
+      [assumption|assumption|right; reflexivity|apply e_bits_reg|apply e_bits_reg|assumption|assumption|den_tac|den_tac|reflexivity|reflexivity].
+Qed.
+
+Theorem addi_correct bg rt rs imm :
+  reg_ok rt -> reg_ok rs -> 0 <= imm < 2 ^ 16 -> plain_correct bg (MAluI IAddi rt rs imm).
+Proof.
+  intros Ht Hs Hi a ts s st Hw Hb He Hts.
+  pose proof (gpr_range s rs Hw) as Rs.
+  cbn [lift_plain exec1 exec_alui]. unfold b_addi.
+  rewrite <- (S32_simm imm Hi).
+  eapply (trapping_post s st (Some a) Add rt _ _ (gpr s rs) (cs_simm imm mod 2 ^ 32));
+    [assumption|assumption|left; reflexivity|apply e_bits_reg|reflexivity|assumption|apply Z.mod_pos_bound; lia|den_tac|den_tac|reflexivity|reflexivity].
+Qed.
+
+(* ------------------------------------------------------------------ teq, break, syscall, sync, pref *)
+Lemma run_teq ad n e st b :
+  den (st_env st) e = Ok (mkc 1 b) -> den (st_env st) n = Ok (mkc 1 (if b =? 0 then 1 else 0)) -> bit01 b ->
+  run_graph (mkcfg [blk 0 ad [ONop None]; blk 1 ad []; blk 2 ad [intr I_TRAP true]]
+                   [edge_c 0 1 n; edge_c 0 2 e; edge_u 2 1] 3 (Some 0) (Some 1)) st
+  = if b =? 1 then Trap I_TRAP st else Fin st.
+Proof.
+  intros Hc Hnc Hb. unfold run_graph. cbn [g_entry g_exit]. unfold FUEL.
+  erewrite run_cfg_step by reflexivity.
+  change (b_instrs (blk 0 ad [ONop None])) with (number ad 0 [ONop None]).
+  cbn [number run_instrs i_op exec_op g_exit optZ_eqb Z.eqb].
+  change (out_edges _ 0) with [edge_c 0 1 n; edge_c 0 2 e].
+  cbn [enabled_edges e_cond edge_c guard_on]. rewrite Hc, Hnc.
+  destruct Hb as [-> | ->]; cbn [bind cbits cval Z.eqb Pos.eqb negb e_tail edge_c]; reflexivity.
+Qed.
+
+Theorem teq_correct bg rs rt code : reg_ok rs -> reg_ok rt -> plain_correct bg (MTeq rs rt code).
+Proof.
+  intros Hs Ht a ts s st Hw Hb He Hts. cbn [lift_plain exec1]. unfold b_teq. builder_ok.
+  assert (De : den (st_env st) (EBin Cmpeq (reg_expr rs) (reg_expr rt)) = Ok (mkc 1 (if gpr s rs =? gpr s rt then 1 else 0))).
+  { eapply eq_trans; [eapply den_bin; den_tac|reflexivity]. }
+  assert (Dn : den (st_env st) (EBin Cmpneq (reg_expr rs) (reg_expr rt)) = Ok (mkc 1 (if gpr s rs =? gpr s rt then 0 else 1))).
+  { eapply eq_trans; [eapply den_bin; den_tac|reflexivity]. }
+  erewrite run_teq; [|exact De| |].
+  - destruct (gpr s rs =? gpr s rt); cbn [Z.eqb Pos.eqb].
+    + unfold post. exists I_TRAP, st. auto.
+    + unfold ok, post. exists st. split; [reflexivity|]. split; [apply emb_emb_u; assumption|reflexivity].
+  - rewrite Dn. destruct (gpr s rs =? gpr s rt); reflexivity.
+  - destruct (gpr s rs =? gpr s rt); [right|left]; reflexivity.
+Qed.
+
+Theorem break_correct bg code : plain_correct bg (MBreak code).
+Proof.
+  intros a ts s st Hw Hb He Hts. cbn [lift_plain exec1]. unfold b_intr. rewrite run_single.
+  apply post_i_trap; [assumption|reflexivity].
+Qed.
+Theorem syscall_correct bg code : plain_correct bg (MSyscall code).
+Proof.
+  intros a ts s st Hw Hb He Hts. cbn [lift_plain exec1]. unfold b_intr. rewrite run_single.
+  apply post_i_trap; [assumption|reflexivity].
+Qed.
+Lemma nop_post s st ad : emb s st -> post (ok s) st (run_graph (single ad [ONop None]) st).
+Proof.
+  intros He. rewrite run_single. cbn [number run_instrs i_op exec_op]. unfold ok, post. exists st.
+  split; [reflexivity|]. split; [apply emb_emb_u; assumption|reflexivity].
+Qed.
+Theorem sync_correct bg stype : plain_correct bg (MSync stype).
+Proof. intros a ts s st Hw Hb He Hts. cbn [lift_plain exec1]. unfold b_nop. apply nop_post. assumption. Qed.
+Theorem pref_correct bg h b o : plain_correct bg (MPref h b o).
+Proof. intros a ts s st Hw Hb He Hts. cbn [lift_plain exec1]. unfold b_nop. apply nop_post. assumption. Qed.
+
+(* ================================================================== translated blocks *)
+Definition block_post (r : mresult) (st : sstate) (o : outcome) : Prop :=
+  match r with
+  | MOk s' uh ul => exists st', o = Goto (pc s') st' /\ emb_u uh ul s' st'
+  | MTrap t s' => exists m st', o = Trap m st' /\ trap_id t = Some m /\ emb s' st'
+  | MUnpred => True
+  end.
+
+Lemma a32_small x : 0 <= x < 2 ^ 32 -> a32 x = x.
+Proof. intros H. unfold a32, W. apply Z.mod_small. assumption. Qed.
+
+Lemma emb_u_set_pc uh ul s st v : emb_u uh ul s st -> emb_u uh ul (set_pc s v) st.
+Proof. intros [A B C D E]. constructor; auto. Qed.
+Lemma emb_set_pc s st v : emb s st -> emb (set_pc s v) st.
+Proof. intros [A B C D E]. constructor; auto. Qed.
+
+(* ---------- one non-control instruction: graphs [g], successors [(a + 4, None)] ---------- *)
+Theorem single_block_correct bg a w i temps s st :
+  decode w = Some i -> is_control i = false -> plain_correct bg i ->
+  wf_m s -> big s = bg -> pc s = a -> 0 <= a -> a + 8 < 2 ^ 32 -> emb s st -> temps_ok (nth 0 temps []) ->
+  match mirror_block bg a [w] temps with
+  | None => True
+  | Some l => block_post (mrun [w] s) st (run_block (map snd (fst l)) (snd l) st)
+  end.
+Proof.
+  intros Hdec Hc Hpc Hw Hb Hp Ha0 Ha He Hts. unfold mirror_block, mrun. rewrite Hdec, Hc.
+  specialize (Hpc a (nth 0 temps []) s st Hw Hb He Hts). unfold okc.
+  destruct (lift_plain bg i a (nth 0 temps [])) as [[g| |]|]; try exact I.
+  cbn [fst snd map]. unfold mstep1. rewrite Hc. unfold run_block. cbn [run_seq].
+  destruct (exec1 i s) as [s' uh ul|t s'|]; cbn [post block_post] in *.
+  - destruct Hpc as (st' & -> & Hemb & _). cbn [enabled_succs guard_on bind].
+    exists st'. split; [|apply emb_u_set_pc; assumption].
+    cbn [pc set_pc]. rewrite Hp, a32_small by lia. reflexivity.
+  - destruct Hpc as (m & st' & -> & Ht & Hemb). exists m, st'. auto.
+  - exact I.
+Qed.
+
+(* ---------- a branch and its delay slot ---------- *)
+Lemma run_block_cons g gs succs st :
+  run_block (g :: gs) succs st = match run_graph g st with Fin st' => run_block gs succs st' | o => o end.
+Proof. unfold run_block. cbn [run_seq]. destruct (run_graph g st); reflexivity. Qed.
+
+Lemma den_reg_u uh ul s st r : gpr s 0 = 0 -> emb_u uh ul s st -> 0 <= r <= 31 ->
+  den (st_env st) (reg_expr r) = Ok (mkc 32 (gpr s r)).
+Proof.
+  intros Hz He Hr. unfold reg_expr. destruct (Z.eqb_spec r 0) as [->|N].
+  - rewrite Hz. reflexivity.
+  - cbn [den]. rewrite skey_reg, (embu_reg _ _ _ _ He) by lia. reflexivity.
+Qed.
+
+Lemma den_bc en cv : env_get en kbc = Some (mkc 1 cv) -> den en bc_expr = Ok (mkc 1 cv).
+Proof. intros H. unfold bc_expr, bc_scalar. cbn [den]. rewrite skey_sc. fold kbc. rewrite H. reflexivity. Qed.
+
+Lemma not_arch_kbc : ~ arch_key kbc.
+Proof. apply not_arch_kreg; unfold R_BC; lia. Qed.
+
+(* the slot, then whatever the branch's own graph and the successors do *)
+Lemma branch_core bg sl a ts s1 st st1 p sg q succs tgt :
+  plain_correct bg sl -> lift_plain bg sl (a + 4) ts = Some (Ok sg) -> temps_ok ts ->
+  wf_m s1 -> big s1 = bg -> emb s1 st1 -> run_graph p st = Fin st1 ->
+  (forall s2 uh ul st2, exec1 sl s1 = MOk s2 uh ul -> emb_u uh ul s2 st2 ->
+     env_get (st_env st2) kbc = env_get (st_env st1) kbc ->
+     exists st3, run_block [q] succs st2 = Goto tgt st3 /\ emb_u uh ul s2 st3) ->
+  block_post (match exec1 sl s1 with MOk s2 uh ul => MOk (set_pc s2 tgt) uh ul | r => r end) st
+             (run_block [p; sg; q] succs st).
+Proof.
+  intros Hpc Hl Hts Hw Hb He Hp Hk.
+  specialize (Hpc (a + 4) ts s1 st1 Hw Hb He Hts). rewrite Hl in Hpc.
+  rewrite run_block_cons, Hp, run_block_cons.
+  destruct (exec1 sl s1) as [s2 uh ul|t s2|]; cbn [post block_post] in *.
+  - destruct Hpc as (st2 & -> & Hemb & Hfr).
+    destruct (Hk s2 uh ul st2 eq_refl Hemb Hfr) as (st3 & -> & He3).
+    exists st3. split; [reflexivity|apply emb_u_set_pc; assumption].
+  - destruct Hpc as (m & st2 & -> & Ht & Hemb). exists m, st2. auto.
+  - exact I.
+Qed.
+
+Lemma run_empty ad st : run_graph (single ad []) st = Fin st.
+Proof. rewrite run_single. reflexivity. Qed.
+
+Lemma run_branch_op ad e st v : den (st_env st) e = Ok (mkc 32 v) -> 0 <= v < 2 ^ 32 ->
+  run_graph (single ad [OBranch e]) st = Goto v st.
+Proof.
+  intros H Hv. rewrite run_single. cbn [number run_instrs i_op exec_op]. rewrite H. cbn [bind].
+  unfold addr_of. cbn [cval]. unfold ADDR_LIMIT. destruct (Z.ltb_spec v (2 ^ 64)); [reflexivity|lia].
+Qed.
+
+(* field / address side conditions *)
+Definition off_ok (a off : Z) : Prop := 0 <= off < 2 ^ 16 /\ 0 <= a + 4 + sx16 off * 4 < 2 ^ 32.
+Definition branch_ok (a : Z) (b : minstr) : Prop :=
+  match b with
+  | MJ idx | MJal idx => 0 <= idx < 2 ^ 26
+  | MJr rs => reg_ok rs
+  | MJalr rd rs => reg_ok rd /\ reg_ok rs
+  | MBr2 _ rs rt off => reg_ok rs /\ reg_ok rt /\ off_ok a off
+  | MBrz _ rs off | MBrzal _ rs off => reg_ok rs /\ off_ok a off
+  | _ => True
+  end.
+
+(* jr / jalr read the target register AFTER the delay slot (known finding
+   kf:mips-jr-jalr-target-read-after-slot): the theorem covers slots that leave it unchanged *)
+Definition link_state (b : minstr) (s : mstate) : mstate :=
+  match branch_info b s with
+  | Some bi => match b_link bi with Some (r, v) => setr s r v | None => s end
+  | None => s
+  end.
+Definition target_stable (b sl : minstr) (s : mstate) : Prop :=
+  match b with
+  | MJr rs | MJalr _ rs => forall s2 uh ul, exec1 sl (link_state b s) = MOk s2 uh ul -> gpr s2 rs = gpr s rs /\ gpr s2 0 = 0
+  | _ => True
+  end.
+
+Lemma cs_btarget_eq s a off : pc s = a -> off_ok a off -> cs_btarget a off = btarget s off.
+Proof.
+  intros Hp [Ho Ht]. unfold cs_btarget, cs_target, btarget, a32, W. rewrite Hp.
+  rewrite !Z.mod_small; lia.
+Qed.
+Lemma cs_jtarget_eq s a idx : pc s = a -> 0 <= a -> a + 8 < 2 ^ 32 -> cs_jtarget a idx = jtarget s idx.
+Proof.
+  intros Hp H0 Ha. unfold cs_jtarget, jtarget. rewrite Hp, a32_small by lia. reflexivity.
+Qed.
+Lemma jtarget_range s a idx : pc s = a -> 0 <= a -> a + 8 < 2 ^ 32 -> 0 <= idx < 2 ^ 26 -> 0 <= jtarget s idx < 2 ^ 32.
+Proof.
+  intros Hp H0 Ha Hi. unfold jtarget. rewrite Hp, a32_small by lia.
+  change (2 ^ 28) with 268435456. change (2 ^ 32) with 4294967296 in *. change (2 ^ 26) with 67108864 in *. lia.
+Qed.
+
+(* the two guarded successors of a conditional branch *)
+Lemma two_succs en t f cv n : env_get en kbc = Some (mkc 1 cv) -> bit01 cv -> not1 bc_expr = Ok n ->
+  enabled_succs en [(t, Some bc_expr); (f, Some n)] = Ok [if cv =? 1 then t else f].
+Proof.
+  intros H Hb Hn. unfold not1 in Hn. rewrite mk_bin_ok in Hn by reflexivity. inversion Hn; subst n.
+  cbn [enabled_succs guard_on]. rewrite (den_not1 en bc_expr cv) by (apply den_bc; assumption).
+  rewrite (den_bc en cv H). destruct Hb as [-> | ->]; reflexivity.
+Qed.
+
+Lemma okc_some o g : okc o = Some g -> o = Some (Ok g).
+Proof. destruct o as [[x| |]|]; cbn; congruence. Qed.
+
+Lemma run_nop_graph ad st : run_graph (single ad [ONop None]) st = Fin st.
+Proof. rewrite run_single. reflexivity. Qed.
+
+Lemma run_block_succ1 ad t st : run_block [single ad []] [(t, None)] st = Goto t st.
+Proof. rewrite run_block_cons, run_empty. reflexivity. Qed.
+
+(* conditional direct branches: the condition is latched before the slot *)
+Lemma cond_branch_case bg sl a ts s st sg e (taken : bool) off n :
+  plain_correct bg sl -> lift_plain bg sl (a + 4) ts = Some (Ok sg) -> temps_ok ts ->
+  wf_m s -> big s = bg -> emb s st -> pc s = a -> 0 <= a -> a + 8 < 2 ^ 32 -> off_ok a off ->
+  den (st_env st) e = Ok (mkc 1 (if taken then 1 else 0)) -> not1 bc_expr = Ok n ->
+  block_post (match exec1 sl s with
+              | MOk s2 uh ul => MOk (set_pc s2 (if taken then btarget s off else a32 (pc s + 8))) uh ul
+              | r => r end) st
+    (run_block [single (Some a) [OAssign bc_scalar e]; sg; single (Some (a + 1)) []]
+               [(cs_btarget a off, Some bc_expr); (a + 8, Some n)] st).
+Proof.
+  intros Hpl Hl Hts Hw Hb He Hp Ha0 Ha Ho De Hn.
+  set (cv := if taken then 1 else 0) in *.
+  eapply (branch_core bg sl a ts s st (set_env st kbc (mkc 1 cv))); try eassumption.
+  - apply emb_set_other; [assumption|apply not_arch_kbc].
+  - rewrite run_single. cbn [number]. erewrite run_assign by eassumption. reflexivity.
+  - intros s2 uh ul st2 _ He2 Hfr. exists st2. split; [|assumption].
+    rewrite run_block_cons, run_empty. unfold run_block. cbn [run_seq].
+    unfold set_env in Hfr. cbn [st_env] in Hfr. rewrite env_get_set_same in Hfr.
+    erewrite two_succs; [|eassumption|subst cv; destruct taken; [right|left]; reflexivity|assumption].
+    rewrite (cs_btarget_eq s a off Hp Ho), Hp, a32_small by lia.
+    subst cv. destruct taken; reflexivity.
+Qed.
+
+(* unconditional direct branches (j, b): nop before the slot, one unguarded successor *)
+Lemma uncond_branch_case bg sl a ts s st sg tgt :
+  plain_correct bg sl -> lift_plain bg sl (a + 4) ts = Some (Ok sg) -> temps_ok ts ->
+  wf_m s -> big s = bg -> emb s st ->
+  block_post (match exec1 sl s with MOk s2 uh ul => MOk (set_pc s2 tgt) uh ul | r => r end) st
+    (run_block [single (Some a) [ONop None]; sg; single (Some (a + 1)) []] [(tgt, None)] st).
+Proof.
+  intros Hpl Hl Hts Hw Hb He.
+  eapply (branch_core bg sl a ts s st st); try eassumption.
+  - apply run_nop_graph.
+  - intros s2 uh ul st2 _ He2 _. exists st2. split; [apply run_block_succ1|assumption].
+Qed.
+
+Lemma link_graph_run s st a rd : emb s st -> reg_ok rd -> pc s = a -> 0 <= a -> a + 8 < 2 ^ 32 ->
+  run_graph (single (Some a) [OAssign (reg_scalar rd) (expr_const (a + 8) 32)]) st
+    = Fin (set_env st (kreg rd) (mkc 32 (a32 (pc s + 8)))) /\
+  emb (setr s rd (a32 (pc s + 8))) (set_env st (kreg rd) (mkc 32 (a32 (pc s + 8)))).
+Proof.
+  intros He Hd Hp Ha0 Ha. split.
+  - rewrite run_single. cbn [number]. erewrite run_assign by (rewrite den_const, new_big_32; reflexivity).
+    rewrite skey_reg, Hp. unfold a32, W. reflexivity.
+  - apply emb_setr; assumption.
+Qed.
+
+Lemma a32_range x : 0 <= a32 x < W.
+Proof. unfold a32, W. apply Z.mod_pos_bound. lia. Qed.
+
+(* forall delay-slot instruction forms sl with a per-form theorem, forall states, forall embeddings *)
+Definition branch_correct (bg : bool) (b : minstr) : Prop :=
+  forall a sl ts s st,
+  is_control sl = false -> plain_correct bg sl -> branch_ok a b -> target_stable b sl s ->
+  wf_m s -> big s = bg -> pc s = a -> 0 <= a -> a + 8 < 2 ^ 32 -> emb s st -> temps_ok ts ->
+  match okc (pre_graph b a), okc (lift_plain bg sl (a + 4) ts), okc (post_graph b a) with
+  | Some p, Some sg, Some q => block_post (mstep2 b sl s) st (run_block [p; sg; q] (succs_of b a) st)
+  | _, _, _ => True
+  end.
+
+Lemma not1_bc : not1 bc_expr = Ok (EBin Cmpeq bc_expr c0_1).
+Proof. reflexivity. Qed.
+
+Lemma S32_0 : S 32 0 = 0.
+Proof. reflexivity. Qed.
+
+Ltac slot_split Hsg :=
+  match goal with
+  | |- context [okc (lift_plain ?bg ?sl ?a ?ts)] =>
+      destruct (okc (lift_plain bg sl a ts)) as [sg|] eqn:Hsg; [apply okc_some in Hsg|exact I]
+  end.
+
+Theorem j_correct bg idx : branch_correct bg (MJ idx).
+Proof.
+  intros a sl ts s st Hcs Hpl Hbo Hstab Hw Hb Hp Ha0 Ha He Hts.
+  cbn [pre_graph post_graph succs_of]. unfold b_nop, b_empty. cbn [okc]. slot_split Hsg.
+  unfold mstep2. cbn [branch_info b_link b_taken b_target]. rewrite Hcs.
+  rewrite <- (cs_jtarget_eq s a idx Hp Ha0 Ha).
+  eapply uncond_branch_case; eassumption.
+Qed.
+
+Theorem br2_correct bg c rs rt off : branch_correct bg (MBr2 c rs rt off).
+Proof.
+  intros a sl ts s st Hcs Hpl (Hs & Ht & Ho) Hstab Hw Hb Hp Ha0 Ha He Hts.
+  pose proof (gpr_zero s Hw) as Z0.
+  unfold mstep2. rewrite Hcs.
+  destruct c; cbn [pre_graph post_graph succs_of branch_info b_link b_taken b_target].
+  - (* beq / beqz / b *)
+    destruct ((rs =? 0) && (rt =? 0)) eqn:Ezz.
+    + apply andb_true_iff in Ezz. destruct Ezz as [E1 E2]. apply Z.eqb_eq in E1, E2. subst rs rt.
+      unfold b_nop, b_empty. cbn [okc]. slot_split Hsg. rewrite Z.eqb_refl.
+      rewrite <- (cs_btarget_eq s a off Hp Ho). eapply uncond_branch_case; eassumption.
+    + destruct (Z.eqb_spec rt 0) as [->|Nt]; builder_ok; unfold b_empty; cbn [okc]; slot_split Hsg;
+        rewrite not1_bc.
+      * eapply cond_branch_case; try eassumption; [|reflexivity].
+        eapply eq_trans; [eapply den_bin; den_tac|]. cbn [sp_bin]. unfold s_cmpeq. rewrite Z0. reflexivity.
+      * eapply cond_branch_case; try eassumption; [|reflexivity].
+        eapply eq_trans; [eapply den_bin; den_tac|]. reflexivity.
+  - (* bne / bnez *)
+    destruct (Z.eqb_spec rt 0) as [->|Nt]; builder_ok; unfold b_empty; cbn [okc]; slot_split Hsg;
+      rewrite not1_bc.
+    + eapply cond_branch_case; try eassumption; [|reflexivity].
+      eapply eq_trans; [eapply den_bin; den_tac|]. cbn [sp_bin]. unfold s_cmpneq. rewrite Z0.
+      change (0 mod 2 ^ 32) with 0. destruct (gpr s rs =? 0); reflexivity.
+    + eapply cond_branch_case; try eassumption; [|reflexivity].
+      eapply eq_trans; [eapply den_bin; den_tac|]. cbn [sp_bin]. unfold s_cmpneq.
+      destruct (gpr s rs =? gpr s rt); reflexivity.
+Qed.
+
+Theorem brz_correct bg c rs off : branch_correct bg (MBrz c rs off).
+Proof.
+  intros a sl ts s st Hcs Hpl (Hs & Ho) Hstab Hw Hb Hp Ha0 Ha He Hts.
+  pose proof (gpr_range s rs Hw) as Rs.
+  unfold mstep2. rewrite Hcs.
+  destruct c; cbn [pre_graph post_graph succs_of branch_info b_link b_taken b_target];
+    unfold not1; builder_ok; unfold b_empty; cbn [okc]; slot_split Hsg;
+    (eapply cond_branch_case; try eassumption; [|reflexivity]).
+  - (* blez: (rs <s 0) | (rs == 0) *)
+    eapply eq_trans; [eapply den_bin; (eapply eq_trans; [eapply den_bin; den_tac|reflexivity])|].
+    cbn [sp_bin]. unfold s_or, s_cmplts, s_cmpeq. change (0 mod 2 ^ 32) with 0. rewrite S32_0.
+    f_equal. f_equal. unfold S. change (2 ^ (32 - 1)) with 2147483648. change (2 ^ 32) with 4294967296 in *.
+    destruct (gpr s rs <? 2147483648) eqn:E1;
+      repeat match goal with |- context [?x <? ?y] => destruct (Z.ltb_spec x y) | |- context [?x =? ?y] => destruct (Z.eqb_spec x y)
+                       | |- context [?x <=? ?y] => destruct (Z.leb_spec x y) end; cbn [Z.lor]; lia.
+  - (* bgtz: 0 <s rs *)
+    eapply eq_trans; [eapply den_bin; den_tac|]. cbn [sp_bin]. unfold s_cmplts. change (0 mod 2 ^ 32) with 0. rewrite S32_0. reflexivity.
+  - (* bltz: rs <s 0 *)
+    eapply eq_trans; [eapply den_bin; den_tac|]. cbn [sp_bin]. unfold s_cmplts. change (0 mod 2 ^ 32) with 0. rewrite S32_0. reflexivity.
+  - (* bgez: (rs <s 0) == 0 *)
+    erewrite den_not1; [|eapply eq_trans; [eapply den_bin; den_tac|reflexivity]].
+    unfold s_cmplts. change (0 mod 2 ^ 32) with 0. rewrite S32_0. f_equal. f_equal.
+    destruct (Z.ltb_spec (S 32 (gpr s rs)) 0), (Z.leb_spec 0 (S 32 (gpr s rs))); cbn [Z.eqb]; lia.
+Qed.
+
+Lemma big_setr s r v : big (setr s r v) = big s.
+Proof. unfold setr. destruct (r =? 0); reflexivity. Qed.
+
+Theorem jal_correct bg idx : branch_correct bg (MJal idx).
+Proof.
+  intros a sl ts s st Hcs Hpl Hbo Hstab Hw Hb Hp Ha0 Ha He Hts.
+  cbn [pre_graph post_graph succs_of]. unfold b_branch_const. cbn [okc]. slot_split Hsg.
+  unfold mstep2. cbn [branch_info b_link b_taken b_target]. rewrite Hcs.
+  destruct (link_graph_run s st a 31 He ltac:(unfold reg_ok; lia) Hp Ha0 Ha) as [Hrun Hemb].
+  eapply (branch_core bg sl a ts _ st _); try eassumption.
+  - apply wf_setr; [assumption|apply a32_range].
+  - intros s2 uh ul st2 _ He2 _. exists st2. split; [|assumption].
+    rewrite run_block_cons. erewrite run_branch_op.
+    + reflexivity.
+    + rewrite den_const, new_big_32. rewrite (cs_jtarget_eq s a idx Hp Ha0 Ha).
+      rewrite Z.mod_small by (eapply jtarget_range; eassumption). reflexivity.
+    + eapply jtarget_range; eassumption.
+Qed.
+
+Theorem jr_correct bg rs : branch_correct bg (MJr rs).
+Proof.
+  intros a sl ts s st Hcs Hpl Hbo Hstab Hw Hb Hp Ha0 Ha He Hts.
+  cbn [pre_graph post_graph succs_of]. unfold b_nop, b_branch_reg. cbn [okc]. slot_split Hsg.
+  unfold mstep2. cbn [branch_info b_link b_taken b_target]. rewrite Hcs.
+  cbn [target_stable] in Hstab. unfold link_state in Hstab. cbn [branch_info b_link] in Hstab.
+  eapply (branch_core bg sl a ts s st st); try eassumption.
+  - apply run_nop_graph.
+  - intros s2 uh ul st2 Hex He2 _. destruct (Hstab s2 uh ul Hex) as [Hsame Hz]. exists st2. split; [|assumption].
+    rewrite run_block_cons. erewrite run_branch_op.
+    + reflexivity.
+    + rewrite <- Hsame. eapply den_reg_u; [exact Hz|eassumption|exact Hbo].
+    + apply gpr_range. assumption.
+Qed.
+
+Theorem jalr_correct bg rd rs : branch_correct bg (MJalr rd rs).
+Proof.
+  intros a sl ts s st Hcs Hpl (Hd & Hs) Hstab Hw Hb Hp Ha0 Ha He Hts.
+  unfold mstep2. cbn [branch_info]. cbn [target_stable] in Hstab. unfold link_state in Hstab. cbn [branch_info] in Hstab.
+  destruct (Z.eqb_spec rd rs) as [->|Nds].
+  { destruct (okc (pre_graph (MJalr rs rs) a)), (okc (lift_plain bg sl (a + 4) ts)), (okc (post_graph (MJalr rs rs) a)); exact I. }
+  cbn [b_link b_taken b_target] in *. rewrite Hcs.
+  cbn [pre_graph post_graph succs_of]. unfold b_nop, b_branch_reg.
+  destruct (Z.eqb_spec rd 0) as [->|Nd]; cbn [okc]; slot_split Hsg.
+  - (* capstone: jr rs *)
+    change (setr s 0 (a32 (pc s + 8))) with s in *.
+    eapply (branch_core bg sl a ts s st st); try eassumption.
+    + apply run_nop_graph.
+    + intros s2 uh ul st2 Hex He2 _. destruct (Hstab s2 uh ul Hex) as [Hsame Hz]. exists st2. split; [|assumption].
+      rewrite run_block_cons. erewrite run_branch_op.
+      * reflexivity.
+      * rewrite <- Hsame. eapply den_reg_u; [exact Hz|eassumption|exact Hs].
+      * apply gpr_range. assumption.
+  - destruct (link_graph_run s st a rd He Hd Hp Ha0 Ha) as [Hrun Hemb].
+    assert (Hw1 : wf_m (setr s rd (a32 (pc s + 8)))) by (apply wf_setr; [assumption|apply a32_range]).
+    assert (Hb1 : big (setr s rd (a32 (pc s + 8))) = bg) by (rewrite big_setr; assumption).
+    eapply (branch_core bg sl a ts _ st _ _ _ _ _ _ Hpl Hsg Hts Hw1 Hb1 Hemb Hrun).
+    + intros s2 uh ul st2 Hex He2 _. destruct (Hstab s2 uh ul Hex) as [Hsame Hz]. exists st2. split; [|assumption].
+      rewrite run_block_cons. erewrite run_branch_op.
+      * reflexivity.
+      * rewrite <- Hsame. eapply den_reg_u; [exact Hz|eassumption|exact Hs].
+      * apply gpr_range. assumption.
+Qed.
+
+Lemma b_cond_link_eq ad t :
+  b_cond_link ad t =
+  Ok (mkcfg [blk 0 ad [ONop None]; blk 1 ad [OBranch (expr_const t 32)]; blk 2 ad []]
+            [edge_c 0 1 bc_expr; edge_c 0 2 (EBin Cmpeq bc_expr c0_1); edge_u 1 2] 3 (Some 0) (Some 2)).
+Proof. reflexivity. Qed.
+
+(* bgezal / bltzal / bal *)
+Lemma cond_link_case bg sl a ts s st sg e (taken : bool) off :
+  plain_correct bg sl -> lift_plain bg sl (a + 4) ts = Some (Ok sg) -> temps_ok ts ->
+  wf_m s -> big s = bg -> emb s st -> pc s = a -> 0 <= a -> a + 8 < 2 ^ 32 -> off_ok a off ->
+  den (st_env st) e = Ok (mkc 1 (if taken then 1 else 0)) ->
+  match b_cond_link (Some (a + 1)) (cs_btarget a off) with
+  | Ok q =>
+    block_post (match exec1 sl (setr s 31 (a32 (pc s + 8))) with
+                | MOk s2 uh ul => MOk (set_pc s2 (if taken then btarget s off else a32 (pc s + 8))) uh ul
+                | r => r end) st
+      (run_block [single (Some a) [OAssign bc_scalar e; OAssign (reg_scalar 31) (expr_const (a + 8) 32)]; sg; q]
+                 [(a + 8, None)] st)
+  | _ => False
+  end.
+Proof.
+  intros Hpl Hl Hts Hw Hb He Hp Ha0 Ha Ho De.
+  rewrite b_cond_link_eq.
+  set (cv := if taken then 1 else 0) in *.
+  set (st0 := set_env st kbc (mkc 1 cv)).
+  assert (He0 : emb s st0) by (apply emb_set_other; [assumption|apply not_arch_kbc]).
+  destruct (link_graph_run s st0 a 31 He0 ltac:(unfold reg_ok; lia) Hp Ha0 Ha) as [Hrun Hemb].
+  eapply (branch_core bg sl a ts _ st _); try eassumption.
+  - apply wf_setr; [assumption|apply a32_range].
+  - rewrite run_single. cbn [number]. erewrite run_assign by eassumption.
+    rewrite run_single in Hrun. cbn [number] in Hrun. exact Hrun.
+  - intros s2 uh ul st2 _ He2 Hfr.
+    assert (Hbc : env_get (st_env st2) kbc = Some (mkc 1 cv)).
+    { rewrite Hfr. unfold set_env, st0. cbn [st_env].
+      rewrite env_get_set_other by (apply kbc_not_reg; lia). apply env_get_set_same. }
+    exists st2. split; [|assumption].
+    rewrite run_block_cons.
+    erewrite run_tri; [|apply den_bc; exact Hbc|apply den_not1; apply den_bc; exact Hbc|subst cv; destruct taken; [right|left]; reflexivity].
+    subst cv. destruct taken; cbn [Z.eqb Pos.eqb number run_instrs i_op exec_op].
+    + rewrite den_const, new_big_32. cbn [bind]. rewrite (cs_btarget_eq s a off Hp Ho).
+      assert (R : 0 <= btarget s off < 2 ^ 32) by (unfold btarget; apply a32_range).
+      rewrite Z.mod_small by exact R. unfold addr_of, ADDR_LIMIT. cbn [cval].
+      destruct (Z.ltb_spec (btarget s off) (2 ^ 64)); [reflexivity|lia].
+    + unfold run_block. cbn [run_seq enabled_succs guard_on bind]. rewrite Hp, a32_small by lia. reflexivity.
+Qed.
+
+Theorem brzal_correct bg c rs off : branch_correct bg (MBrzal c rs off).
+Proof.
+  intros a sl ts s st Hcs Hpl (Hs & Ho) Hstab Hw Hb Hp Ha0 Ha He Hts.
+  pose proof (gpr_range s rs Hw) as Rs. pose proof (gpr_zero s Hw) as Z0.
+  unfold mstep2. cbn [branch_info].
+  destruct (Z.eqb_spec rs 31) as [->|N31].
+  { destruct (okc (pre_graph (MBrzal c 31 off) a)), (okc (lift_plain bg sl (a + 4) ts)), (okc (post_graph (MBrzal c 31 off) a)); exact I. }
+  cbn [b_link b_taken b_target]. rewrite Hcs.
+  destruct c; cbn [pre_graph post_graph succs_of].
+  - (* bltzal *)
+    unfold not1; builder_ok.
+    pose proof (cond_link_case bg sl a ts s st) as L.
+    destruct (b_cond_link (Some (a + 1)) (cs_btarget a off)) as [q| |] eqn:Eq.
+    2,3: (exfalso; rewrite b_cond_link_eq in Eq; discriminate Eq).
+    cbn [okc]. slot_split Hsg.
+    specialize (L sg (EBin Cmplts (reg_expr rs) (expr_const 0 32)) (S 32 (gpr s rs) <? 0) off Hpl Hsg Hts Hw Hb He Hp Ha0 Ha Ho).
+    rewrite Eq in L. apply L.
+    eapply eq_trans; [eapply den_bin; den_tac|]. cbn [sp_bin]. unfold s_cmplts. change (0 mod 2 ^ 32) with 0. rewrite S32_0. reflexivity.
+  - (* bgezal / bal *)
+    destruct (Z.eqb_spec rs 0) as [->|N0].
+    + (* bal *)
+      unfold b_branch_const. cbn [okc]. slot_split Hsg.
+      destruct (link_graph_run s st a 31 He ltac:(unfold reg_ok; lia) Hp Ha0 Ha) as [Hrun Hemb].
+      rewrite Z0, S32_0. cbn [Z.leb Z.compare].
+      eapply (branch_core bg sl a ts _ st _); try eassumption.
+      * apply wf_setr; [assumption|apply a32_range].
+      * intros s2 uh ul st2 _ He2 _. exists st2. split; [|assumption].
+        rewrite run_block_cons.
+        assert (R : 0 <= btarget s off < 2 ^ 32) by (unfold btarget; apply a32_range).
+        erewrite run_branch_op; [reflexivity| |exact R].
+        rewrite den_const, new_big_32, (cs_btarget_eq s a off Hp Ho), Z.mod_small by exact R. reflexivity.
+    + unfold not1; builder_ok.
+      pose proof (cond_link_case bg sl a ts s st) as L.
+      destruct (b_cond_link (Some (a + 1)) (cs_btarget a off)) as [q| |] eqn:Eq.
+      2,3: (exfalso; rewrite b_cond_link_eq in Eq; discriminate Eq).
+      cbn [okc]. slot_split Hsg.
+      specialize (L sg (EBin Cmpeq (EBin Cmplts (reg_expr rs) (expr_const 0 32)) (expr_const 0 1)) (0 <=? S 32 (gpr s rs)) off Hpl Hsg Hts Hw Hb He Hp Ha0 Ha Ho).
+      rewrite Eq in L. apply L.
+      fold c0_1. erewrite den_not1; [|eapply eq_trans; [eapply den_bin; den_tac|reflexivity]].
+      unfold s_cmplts. change (0 mod 2 ^ 32) with 0. rewrite S32_0. f_equal. f_equal.
+      destruct (Z.ltb_spec (S 32 (gpr s rs)) 0), (Z.leb_spec 0 (S 32 (gpr s rs))); cbn [Z.eqb]; lia.
+Qed.
+
+(* ---------- the translated block of a branch and its delay slot, through mirror_block / mrun ---------- *)
+Theorem branch_block_correct bg a w1 w2 b sl temps s st :
+  decode w1 = Some b -> decode w2 = Some sl -> is_control b = true -> is_control sl = false ->
+  branch_correct bg b -> plain_correct bg sl -> branch_ok a b -> target_stable b sl s ->
+  wf_m s -> big s = bg -> pc s = a -> 0 <= a -> a + 8 < 2 ^ 32 -> emb s st -> temps_ok (nth 1 temps []) ->
+  match mirror_block bg a [w1; w2] temps with
+  | None => True
+  | Some l => block_post (mrun [w1; w2] s) st (run_block (map snd (fst l)) (snd l) st)
+  end.
+Proof.
+  intros D1 D2 Cb Cs Hbr Hpl Hbo Hstab Hw Hb Hp Ha0 Ha He Hts.
+  unfold mirror_block, mrun. rewrite D1, D2, Cb, Cs. cbn [negb orb].
+  specialize (Hbr a sl (nth 1 temps []) s st Cs Hpl Hbo Hstab Hw Hb Hp Ha0 Ha He Hts).
+  destruct (okc (pre_graph b a)), (okc (lift_plain bg sl (a + 4) (nth 1 temps []))), (okc (post_graph b a)); try exact I.
+  exact Hbr.
+Qed.
+
+(* ---------- summary: which forms have a theorem ---------- *)
+Definition imm16_ok (i : Z) : Prop := 0 <= i < 2 ^ 16.
+Definition fields_ok (i : minstr) : Prop :=
+  match i with
+  | MAlu3 _ rd rs rt => reg_ok rd /\ reg_ok rs /\ reg_ok rt
+  | MShi _ rd rt sa => reg_ok rd /\ reg_ok rt /\ 0 <= sa < 32
+  | MShv _ rd rt rs => reg_ok rd /\ reg_ok rt /\ reg_ok rs
+  | MAluI _ rt rs imm => reg_ok rt /\ reg_ok rs /\ imm16_ok imm
+  | MLui rt imm => reg_ok rt /\ imm16_ok imm
+  | MMfhi r | MMflo r | MMthi r | MMtlo r => reg_ok r
+  | MTeq rs rt _ => reg_ok rs /\ reg_ok rt
+  | _ => True
+  end.
+
+Definition proved_plain (i : minstr) : bool :=
+  match i with
+  | MAlu3 _ _ _ _ | MShi _ _ _ _ | MShv _ _ _ _ | MAluI _ _ _ _ | MLui _ _
+  | MMfhi _ | MMflo _ | MMthi _ | MMtlo _ | MTeq _ _ _ | MBreak _ | MSyscall _ | MSync _ | MPref _ _ _ => true
+  | _ => false
+  end.
+
+Theorem proved_plain_correct bg i : proved_plain i = true -> fields_ok i -> plain_correct bg i.
+Proof.
+  intros Hp Hf. destruct i; try discriminate Hp; cbn [fields_ok] in Hf.
+  - destruct Hf as (Hd & Hs & Ht).
+    destruct o; first [apply alu3_simple_correct; [reflexivity|assumption..]
+                      |apply add_sub_correct; [auto|assumption..]
+                      |apply slt_correct; [auto|assumption..]
+                      |apply movc_correct; [auto|assumption..]].
+  - destruct Hf as (Hd & Ht & Hs). apply shi_correct; assumption.
+  - destruct Hf as (Hd & Ht & Hs). apply shv_correct; assumption.
+  - destruct Hf as (Ht & Hs & Hi). unfold imm16_ok in Hi.
+    destruct o; first [apply addi_correct; assumption
+                      |apply alui_simple_correct; [reflexivity|assumption..]
+                      |apply slti_correct; [auto|assumption..]].
+  - destruct Hf as (Ht & Hi). apply lui_correct; assumption.
+  - apply mfhi_correct; assumption.
+  - apply mflo_correct; assumption.
+  - apply mthi_correct; assumption.
+  - apply mtlo_correct; assumption.
+  - destruct Hf. apply teq_correct; assumption.
+  - apply break_correct.
+  - apply syscall_correct.
+  - apply sync_correct.
+  - apply pref_correct.
+Qed.
+
+Theorem control_correct bg b : is_control b = true -> branch_correct bg b.
+Proof.
+  intros H. destruct b; try discriminate H.
+  - apply j_correct. - apply jal_correct. - apply jr_correct. - apply jalr_correct.
+  - apply br2_correct. - apply brz_correct. - apply brzal_correct.
+Qed.
+
+(* executable side conditions, checked for every enumerated encoding by the tie *)
+Definition regb (r : Z) : bool := (0 <=? r) && (r <=? 31).
+Definition fields_okb (i : minstr) : bool :=
+  match i with
+  | MAlu3 _ rd rs rt => regb rd && regb rs && regb rt
+  | MShi _ rd rt sa => regb rd && regb rt && (0 <=? sa) && (sa <? 32)
+  | MShv _ rd rt rs => regb rd && regb rt && regb rs
+  | MAluI _ rt rs imm => regb rt && regb rs && (0 <=? imm) && (imm <? 2 ^ 16)
+  | MLui rt imm => regb rt && (0 <=? imm) && (imm <? 2 ^ 16)
+  | MMfhi r | MMflo r | MMthi r | MMtlo r => regb r
+  | MTeq rs rt _ => regb rs && regb rt
+  | _ => true
+  end.
+Lemma fields_okb_ok i : fields_okb i = true -> fields_ok i.
+Proof.
+  unfold fields_okb, fields_ok, regb, reg_ok, imm16_ok. destruct i; intros H; try exact I;
+    repeat (apply andb_true_iff in H; destruct H as [H ?]); repeat split; lia.
+Qed.
